@@ -5,12 +5,14 @@ RULE = ("one case = one seed = (0..16 sequential pre-registrations so that concu
         "simulated threads x 2-7 ops from {register new / identical / conflicting, lookup by name with case variants, lookup by slot, "
         "count, scan}) x (scheduling policy, basic-block preemption rate, CopyObject field order); mode 'table' = unmodified "
         "engine_global_table.h with a checksummed payload and a fresh table per run, mode 'api' = real engine_plugin.cc entry points "
-        "(plugins and resource providers) in a forked child per run; non-trivial = >=2 threads runnable at once and >=1 switch; "
+        "(plugins and resource providers concurrently, then a sequential history of 1-24 decoder registrations, one of them with an empty content type in 30% of the runs, "
+        "each looked up again) in a forked child per run; keys come in pairs that differ in one punctuation character of the set that differs from its partner by the case bit; "
+        "in 30% of the table-mode runs one thread performs its operations inside the exclusive section of a second table; non-trivial = >=2 threads runnable at once and >=1 switch; "
         "distinct = distinct scheduling-trace hash")
 ASSUME = [
     "sequentially consistent interleavings; memory-order mistakes are caught only as data races by the TSan-in-the-loop stages",
     "the payload table test opens GlobalTable's private constructor in the harness TU only (to get a fresh table per run); the header itself is compiled unmodified",
-    "decoder/encoder tables share the same GlobalTable template; they are exercised through the template ('table' mode), not through mjp_registerDecoder",
+    "the encoder table shares the GlobalTable template and the registration code shape of the decoder table; it is exercised through the template ('table' mode) only",
     "sampled, not exhaustive",
 ]
 
